@@ -29,7 +29,7 @@ func families(tier string) []fw.Family {
 			familySingle(fmt.Sprintf("PDF, ToUnicode ranges and W ranges: %d strings over {a,b,c}, digit runs and all pairs of consecutive code points (ASCII, Latin-1 letters) x 3 fonts x NewTextLine x SubsetFonts on/off", len(rangeStrings())), rangeStrings(), []int{kindLine}, both),
 			// characters with upright and with sideways orientation in turn (in vertical text with the
 			// natural orientation the font object changes between Identity-V and Identity-H at every turn)
-			familySingle("PDF, vertical text whose runs turn between upright (CJK) and sideways (Latin) up to four times x 3 fonts x the 4 vertical layouts x SubsetFonts on/off", mixedOrientationStrings, []int{4, 5, 8, 9}, both),
+			familySingle("PDF, vertical text whose runs turn between upright (CJK) and sideways (Latin) up to four times x 3 fonts x the 5 vertical layouts x SubsetFonts on/off", mixedOrientationStrings, []int{4, 5, 8, 9, 10}, both),
 			familyPairs("PDF, two texts", pairStrings, both),
 			familyReuse("PDF, one font object for two documents in a row", pairStrings),
 			familyWidthRuns(0),
@@ -50,7 +50,7 @@ func families(tier string) []fw.Family {
 		familySingle(fmt.Sprintf("PDF, ToUnicode ranges and W ranges: %d strings over {a,b,c}, digit runs and all pairs of consecutive code points (ASCII, Latin-1 letters) x 3 fonts x NewTextLine x SubsetFonts on/off", len(rangeStrings())), rangeStrings(), []int{kindLine}, both),
 		// characters with upright and with sideways orientation in turn (in vertical text with the
 		// natural orientation the font object changes between Identity-V and Identity-H at every turn)
-		familySingle("PDF, vertical text whose runs turn between upright (CJK) and sideways (Latin) up to four times x 3 fonts x the 4 vertical layouts x SubsetFonts on/off", mixedOrientationStrings, []int{4, 5, 8, 9}, both),
+		familySingle("PDF, vertical text whose runs turn between upright (CJK) and sideways (Latin) up to four times x 3 fonts x the 5 vertical layouts x SubsetFonts on/off", mixedOrientationStrings, []int{4, 5, 8, 9, 10}, both),
 		familyPairs("PDF, two texts", pairStrings[:3], both),
 		familyReuse("PDF, one font object for two documents in a row", pairStrings[:3]),
 		familyWidthRuns(0),
